@@ -529,14 +529,23 @@ def build_cases(ctx):
     # 2. n = 4 digraphs
     g4 = [es for es in graphs.all_digraphs(4) if es]
     if quick:
-        g4 = rng.sample(g4, 150)
+        g4 = rng.sample(g4, 300)
     for es in g4:
         a = mk_matrix(4, 4, es, weights_for(rng, es, rng.choice(['ones', 'int', 'dyadic'])))
         subs = list(graphs.nonempty_subsets(4))
         scs += square_scenarios(rng, a, rng.sample(subs, 2 if quick else 4), n_iters=(1, 2, 3, 5), ctx=ctx)
         ctx.count('digraph:n=4')
+    if not quick:
+        for _ in range(2000):
+            es = graphs.random_edges(rng, 5, rng.choice([0.15, 0.3, 0.5]), directed=True, loops=True)
+            if not es:
+                continue
+            a = mk_matrix(5, 5, es, weights_for(rng, es, rng.choice(['ones', 'int', 'dyadic'])))
+            subs = [sorted(rng.sample(range(5), rng.randint(1, 4))) for _ in range(2)]
+            scs += square_scenarios(rng, a, subs, n_iters=(1, 2, 3, 5, 8), ctx=ctx)
+            ctx.count('digraph:n=5')
     # 3. structured random graphs
-    for name, n, es, w in graphs.suite(rng, 60 if quick else 600, 3, 12):
+    for name, n, es, w in graphs.suite(rng, 150 if quick else 1500, 3, 12):
         if not es:
             continue
         kind = name.rstrip('0123456789')
@@ -559,7 +568,7 @@ def build_cases(ctx):
             b = mk_matrix(nr, nc, es, weights_for(rng, es, rng.choice(['ones', 'int'])))
             scs += bip_scenarios(rng, b, 3 if quick else 6, ctx=ctx)
             ctx.count('bipartite:%dx%d' % (nr, nc))
-    for _ in range(40 if quick else 500):
+    for _ in range(100 if quick else 1500):
         nr, nc = rng.randint(2, 6), rng.randint(2, 7)
         es = graphs.random_edges(rng, nr, rng.choice([0.3, 0.5, 0.8]), m=nc)
         if not es:
@@ -604,9 +613,9 @@ def harmonic_suite(ctx, rng, quick, small_only=False):
             if es and is_connected_undirected(n, es):
                 todo.append((n, es))
     if quick and not small_only:
-        todo = rng.sample(todo, 25)
+        todo = rng.sample(todo, 35)
     if not small_only:
-        for name, n, es, w in graphs.suite(rng, 20 if quick else 150, 3, 8,
+        for name, n, es, w in graphs.suite(rng, 30 if quick else 250, 3, 8,
                                            kinds=['path', 'cycle', 'star', 'clique', 'grid', 'blocks', 'random_undirected']):
             es = [e for e in es if e[0] != e[1]]
             if es and is_connected_undirected(n, es):
@@ -619,7 +628,7 @@ def harmonic_suite(ctx, rng, quick, small_only=False):
         cases += harmonic_cases(sc, rng)
         ctx.count('harmonic:n=%d' % n)
     # bipartite: the block graph is undirected
-    for _ in range(6 if quick else 60):
+    for _ in range(10 if quick else 100):
         nr, nc = rng.randint(1, 3), rng.randint(1, 4)
         es = graphs.random_edges(rng, nr, 0.7, m=nc)
         und = [(i, nr + j) for i, j in es]
